@@ -183,7 +183,7 @@ def replay(ctx, obj):
 
 
 def run(ctx):
-    explore(ctx, ctx.subrng("reset"), ctx.budget(350, 6000))
+    explore(ctx, ctx.subrng("reset"), ctx.budget(1000, 8000))
     if not ctx.violations:
         try:
             from .. import dense
